@@ -144,7 +144,7 @@ class Mutator:
                 # Correct logZ for fraction of prior with finite likelihood support
                 n_finite = len(finite_idx)
                 n_total = len(logl)
-                logz = self.state.get_current("logz") + np.log(n_finite / n_total)
+                logz = np.log(n_finite / n_total)
                 self.state.set_current("logz", logz)
             return
 
